@@ -56,7 +56,7 @@ def run(tier, seed, replay=None):
     ctl = []
     for t, v in zip(trs, vs):
         if v["ok"] and t["kind"] == "jobshop" and len(t["events"][0].get("schedule", [])) >= 3 and not any(x[1].startswith("Schedule") for x in ctl):
-            c = copy.deepcopy(t); c["events"][0]["schedule"][1][2] -= 1; c["events"][0]["schedule"][1][3] -= 1; ctl.append((c, "Schedule."))
+            c = copy.deepcopy(t); c["events"][0]["schedule"][1][3] -= 1; ctl.append((c, "Schedule."))      # end - start is no longer the duration (a shifted operation could land in idle time)
             c = copy.deepcopy(t); c["events"][0]["obj"] += 1; ctl.append((c, "Schedule.objective_is_not_latest_end"))
         if v["ok"] and t["kind"] == "vrp" and t["events"] and t["events"][-1]["e"] == "result" and not any(x[1].startswith("Result") for x in ctl):
             st = t["events"][-1]["state"]
